@@ -82,4 +82,33 @@ def Policy.userCtx : Policy → Option Nat
 /-- wrap exactly the secure scheme. -/
 def wraps (secure : Bool) : Bool := secure
 
+/-! ### ordering: TLS before WebSocket data
+
+  On the timeline of one `connect`: a write of handshake bytes on transport `j` is allowed only if,
+  for every dial of `j` for a secure URL earlier on the timeline, a successful wrap of `j` with the
+  documented policy for that URL's host has happened earlier too. -/
+
+def okAtB (pol : Str → Option Policy) (pre : List Ev) : Ev → Bool
+  | .io j (.write _) =>
+    pre.all (fun e => match e with
+      | .dial j' u =>
+        !(j' == j && u.secure) ||
+          pre.any (fun w => match w with
+            | .wrap j'' p true => j'' == j && pol u.host == some p
+            | _ => false)
+      | _ => true)
+  | _ => true
+
+def orderedB (pol : Str → Option Policy) : List Ev → List Ev → Bool
+  | _, [] => true
+  | pre, e :: rest => okAtB pol pre e && orderedB pol (pre ++ [e]) rest
+
+/-- no transport dialled for a plain `ws://` URL is ever wrapped. -/
+def wsNeverWrapped (tr : List Ev) : Bool :=
+  tr.all (fun w => match w with
+    | .wrap j _ _ => tr.all (fun e => match e with
+        | .dial j' u => !(j' == j) || u.secure
+        | _ => true)
+    | _ => true)
+
 end WS.Spec.Tls
